@@ -35,6 +35,7 @@ func runC18(c *core.Ctx) {
 	ruleNoForeignAppend(c, "C18-R7", 8, "pdf")
 	ruleCloseOnce(c)
 	rulePoolPutOwnership(c, "C18-R9")
+	ruleCacheKeyType(c)
 }
 
 // accessesField lists the vertices of g that mention field `field` of pdf.Extractor.
@@ -1234,5 +1235,136 @@ func rulePoolPutOwnership(c *core.Ctx, rule string) {
 			}
 		}
 		o.Shape(n >= 2, "only %d Pool.Put calls found", n)
+	})
+}
+
+// ruleCacheKeyType (C18-R10): the extractor's cache is keyed by (reference,
+// requested type).  The type component must be the static type parameter
+// (reflect.TypeFor[T]()): reflect.TypeOf of a value is nil for every
+// interface type, which would make all interface-typed decodes of a
+// reference share one cache entry (a decode for one type returns the cached
+// value of another, or nil).  Every extractorKey literal in package pdf takes
+// its tp from reflect.TypeFor, directly, through a local, or through a
+// parameter that every caller fills that way.
+func ruleCacheKeyType(c *core.Ctx) {
+	c.Check("C18-R10", "pdf.extractorKey/type", "the type component of every cache key is the requested static type (reflect.TypeFor), never the dynamic type of a value", func(o *core.Ob) {
+		pkg := c.Prog.Pkg("pdf")
+		n := 0
+		var fromTypeFor func(fn *core.Func, g *core.Graph, at *core.V, e ast.Expr, depth int) (bool, string)
+		fromTypeFor = func(fn *core.Func, g *core.Graph, at *core.V, e ast.Expr, depth int) (bool, string) {
+			info := fn.Info()
+			for _, vc := range valueCases(g, at, e, 3) {
+				x := ast.Unparen(vc.Expr)
+				if call, ok := x.(*ast.CallExpr); ok {
+					if core.CalleeKey(info, call) == "reflect.TypeFor" {
+						continue
+					}
+					return false, core.ExprStr(call)
+				}
+				// a field of a key that was built elsewhere (key.tp) or a parameter
+				if id, ok := x.(*ast.Ident); ok && depth > 0 {
+					if p := paramObj(fn, id.Name); p != nil && p == info.ObjectOf(id) && !fn.Obj.Exported() {
+						// every caller in the package
+						idx := -1
+						k := 0
+						for _, f := range fn.Decl.Type.Params.List {
+							for _, nm := range f.Names {
+								if info.ObjectOf(nm) == p {
+									idx = k
+								}
+								k++
+							}
+						}
+						callers := 0
+						for _, other := range c.Prog.Funcs(pkg) {
+							if other.Decl.Body == nil {
+								continue
+							}
+							og := other.Graph()
+							for _, v := range og.Vs {
+								if v.AST == nil {
+									continue
+								}
+								for _, cs := range core.CallsIn(other.Info(), v.AST, false) {
+									if cs.Fn == fn.Obj && idx >= 0 && idx < len(cs.Call.Args) {
+										callers++
+										if ok, why := fromTypeFor(other, og, v, cs.Call.Args[idx], depth-1); !ok {
+											return false, why
+										}
+									}
+								}
+							}
+						}
+						if callers > 0 {
+							continue
+						}
+					}
+				}
+				if sel, ok := x.(*ast.SelectorExpr); ok && sel.Sel.Name == "tp" {
+					continue // the tp of another key, itself checked where that key is built
+				}
+				return false, core.ExprStr(x)
+			}
+			return true, ""
+		}
+		for _, fn := range c.Prog.Funcs(pkg) {
+			if fn.Decl.Body == nil || c.Prog.IsTestFile(fn.Decl.Pos()) {
+				continue
+			}
+			info := fn.Info()
+			has := false
+			ast.Inspect(fn.Decl.Body, func(m ast.Node) bool {
+				if cl, ok := m.(*ast.CompositeLit); ok && core.IsNamed(info.TypeOf(cl), "pdf", "extractorKey") {
+					has = true
+				}
+				return !has
+			})
+			if !has {
+				continue
+			}
+			g := fn.Graph()
+			for _, v := range g.Vs {
+				if v.AST == nil {
+					continue
+				}
+				if _, isLoop := v.AST.(*ast.RangeStmt); isLoop {
+					continue
+				}
+				if _, isLoop := v.AST.(*ast.ForStmt); isLoop {
+					continue
+				}
+				ast.Inspect(v.AST, func(m ast.Node) bool {
+					if _, isLit := m.(*ast.FuncLit); isLit {
+						return false
+					}
+					cl, ok := m.(*ast.CompositeLit)
+					if !ok || !core.IsNamed(info.TypeOf(cl), "pdf", "extractorKey") {
+						return true
+					}
+					f := compositeFields(info, cl)
+					tp := f["tp"]
+					if tp == nil {
+						return true // filled in later through key.tp = ...: checked below
+					}
+					n++
+					o.At(fn.Site(cl, "cache key"))
+					if ok, why := fromTypeFor(fn, g, v, tp, 2); !ok {
+						o.FailAt(fn.Site(cl, ""), "the type of this cache key is %s, not reflect.TypeFor[T](): for interface types the dynamic type of a zero value is nil, and all of them share one cache entry", why)
+					}
+					return true
+				})
+				if as, ok := v.AST.(*ast.AssignStmt); ok && len(as.Lhs) == len(as.Rhs) {
+					for i, l := range as.Lhs {
+						if sel, ok := ast.Unparen(l).(*ast.SelectorExpr); ok && sel.Sel.Name == "tp" && core.IsNamed(info.TypeOf(sel.X), "pdf", "extractorKey") {
+							n++
+							if ok, why := fromTypeFor(fn, g, v, as.Rhs[i], 2); !ok {
+								o.FailAt(fn.Site(as, ""), "the type of this cache key is %s, not reflect.TypeFor[T]()", why)
+							}
+						}
+					}
+				}
+			}
+		}
+		o.Shape(n >= 3, "expected at least three cache keys to be built in package pdf, found %d", n)
 	})
 }
